@@ -11,6 +11,7 @@ package c05
 import (
 	"errors"
 	"fmt"
+	"path/filepath"
 	"strings"
 
 	"gorm.io/gorm"
@@ -23,6 +24,8 @@ import (
 
 var H *vdb.Handle
 var pre string
+var ddl []string
+var crashSeq int
 
 func initEnv(c *core.Ctx) {
 	h, err := vdb.Open(vdb.Options{})
@@ -35,6 +38,16 @@ func initEnv(c *core.Ctx) {
 	H = h
 	restore()
 	pre = vdb.Dump(H.SQL, txm.AllTables...)
+	rows, err := h.SQL.Query("SELECT sql FROM sqlite_master WHERE sql IS NOT NULL AND name NOT LIKE 'sqlite_%'")
+	if err != nil {
+		panic(err)
+	}
+	for rows.Next() {
+		var q string
+		rows.Scan(&q)
+		ddl = append(ddl, q)
+	}
+	rows.Close()
 	txm.H.Enabled = true
 	txm.H.Audit = true
 	txm.H.SetCols = true
@@ -77,6 +90,42 @@ func execute(op txm.Op, failCall, failHook int) runResult {
 	out.inUse = H.SQL.Stats().InUse
 	out.dump = vdb.Dump(H.SQL, txm.AllTables...)
 	return out
+}
+
+// executeCrash runs op on a database file and lets the process "die" at faultable driver
+// call k: every connection is dropped without any clean-up statement (SQLite discards the
+// open transaction), later calls fail. The file is then reopened by a fresh handle and dumped.
+func executeCrash(c *core.Ctx, op txm.Op, k int) (after string, opErr error) {
+	crashSeq++
+	path := filepath.Join(c.Dir, fmt.Sprintf("c05crash_%d.db", crashSeq))
+	h, err := vdb.Open(vdb.Options{File: path})
+	if err != nil {
+		panic(err)
+	}
+	for _, q := range ddl {
+		if _, err := h.SQL.Exec(q); err != nil {
+			panic(err)
+		}
+	}
+	if _, err := h.SQL.Exec(txm.SeedSQL); err != nil {
+		panic(err)
+	}
+	txm.ResetHooks()
+	var count int64
+	h.Rec.SetHook(recdrv.FailNth(k, recdrv.ErrCrash, &count))
+	res := op.Run(h.DB.Session(&gorm.Session{}))
+	opErr = res.Error
+	h.Rec.SetHook(nil)
+	h.SQL.Close()
+	h.Rec.Uncrash()
+	// "restart": a new process opens the file
+	h2, err := vdb.Open(vdb.Options{File: path})
+	if err != nil {
+		panic(err)
+	}
+	after = vdb.Dump(h2.SQL, txm.AllTables...)
+	h2.Close()
+	return
 }
 
 func faultable(evs []recdrv.Event) []recdrv.Event {
@@ -200,6 +249,25 @@ func run(c *core.Ctx) {
 		c.Shape("hook", kind, J, j, hk.Hook, hk.Type)
 		c.Inc("fault_at_hook_" + hk.Hook)
 	}
+	// crash points: the process dies at driver call k
+	if c.Thorough || c.Case%4 == 1 {
+		for k := 1; k <= K; k++ {
+			after, opErr := executeCrash(c, op, k)
+			c.Inc("crash_runs")
+			var p []string
+			if after != pre {
+				p = append(p, "after the crash and restart the database differs from the pre-state (partial effect survived): "+diffDump(pre, after))
+			}
+			if opErr == nil {
+				p = append(p, "the operation reported success although its connection died before COMMIT")
+			}
+			if len(p) > 0 {
+				c.Violation(fmt.Sprintf("crash-at-call-%d-of-%d(%s)/%s", k, K, fcalls[k-1].Kind, kind), map[string]interface{}{"op": op.Desc, "crash_at": evStrings(fcalls[k-1 : k]), "problems": p, "fault_free_calls": evStrings(fcalls)})
+				continue
+			}
+			c.Shape("crash", kind, K, k, fcalls[k-1].Kind)
+		}
+	}
 	restore()
 	if c.WantSample() && K > 4 {
 		c.Sample(map[string]interface{}{"op": op.Desc, "driver_calls": evStrings(fcalls), "hook_invocations": txm.LogString(ff.hookLog),
@@ -232,11 +300,11 @@ var Engine = &core.Engine{
 	ID:    "C05",
 	Level: "fault_enumeration",
 	Rule: "operations = 16 kinds (Create of struct / slice / pointer slice, CreateInBatches, Save new / existing, FullSaveAssociations, Update, Updates struct / with associations / by condition, UpdateColumn, Delete, Select(assoc).Delete, Select(clause.Associations).Delete, Delete by condition) over seeded record graphs (belongs-to new/existing, has-one, has-many with nested has-many, many-to-many new/existing, polymorphic) with hooks on parent and child that write an audit row through tx; " +
-		"for each operation EVERY faultable driver call index (BEGIN, each prepare/exec/query, COMMIT) and EVERY hook invocation index is failed once; distinct = (operation kind, K, k, call kind, SQL verb) resp. (kind, J, j, hook, type); every faulted run is non-trivial (the fault-free run proved the call/hook is reached and the operation changes the database)",
+		"for each operation EVERY faultable driver call index (BEGIN, each prepare/exec/query, COMMIT) and EVERY hook invocation index is failed once, and (every 4th operation in quick, all in thorough) the process is made to die at EVERY driver call index (crash points); distinct = (operation kind, K, k, call kind, SQL verb) resp. (kind, J, j, hook, type); every faulted run is non-trivial (the fault-free run proved the call/hook is reached and the operation changes the database)",
 	Assumptions: []string{
 		"default settings only (implicit transaction on, no PrepareStmt)",
 		"faults are injected at BEGIN, statements and COMMIT (a failed COMMIT rolls the real transaction back, as a server would); not on ROLLBACK or row iteration",
-		"process-kill crash points are not explored by this engine (SQLite's own atomic commit would be what is tested)",
+		"crash points are simulated in-process: at driver call k every connection is dropped without any clean-up statement (SQLite discards the open transaction), every later call fails, and the database file is reopened by a fresh handle; durability of SQLite itself under power loss is not the subject",
 	},
 	Cases: func(tier string) int {
 		if tier == "thorough" {
